@@ -11,7 +11,7 @@ func init() {
 		for i := range p {
 			p[i] = small(r)
 			if r.Chance(10) {
-				p[i] = r.Pick([]string{"999", "1000", "65535", "2147483647", "123456789012345678"})
+				p[i] = r.Pick([]string{"999", "1000", "65535", "2147483647", "2147483648", "4294967296", "20240101120000", "123456789012345678"})
 			}
 		}
 		return strings.Join(p, ".")
@@ -146,7 +146,7 @@ func init() {
 				k := r.Range(1, 6)
 				ids := make([]string, k)
 				for i := range ids {
-					ids[i] = r.Pick([]string{"0", "1", "2", "10", "11", "123456789012345678", "alpha", "beta", "rc", "a", "A", "a-b", "-5", "-", "x1", "1x", "rc1", "Alpha"})
+					ids[i] = r.Pick([]string{"0", "1", "2", "10", "11", "123456789012345678", "4294967296", "99999999999", "100000000000", "20240101120000", "3000000000000", "5000000000", "alpha", "beta", "rc", "a", "A", "a-b", "-5", "-", "x1", "1x", "rc1", "Alpha"})
 				}
 				s += "-" + strings.Join(ids, ".")
 			}
